@@ -109,6 +109,8 @@ def text_use(chk, P):
 
 def run(chk, ctx):
     P = Prog(ctx["facts"])
+    from .iter_rules import plumbing_rule
+    plumbing_rule(chk, P, {"ParsedTestCase": ("stmts",), "TestCase": ("stmts",), "DataRowIteratorTestData": ("iter",)})   # what the parser / the binding produced is what runs
     chk.explanation = ("C20 decided as: the result is a function of the token sequence (kind, text) plus the newline count. LEX (WS is exactly [ \\t\\r\\f]+ and Comment is #[^\\n]*, both skipped; no other callbacks or extras, so the lexer is stateless between tokens; blanks and '#' cannot be part of any other token), "
                        "ORG taint (span-derived values reach no Stmt/Expr/DataEntry/Signal constructor and no branch condition of the parser; only Parser::text, error locations and the sort keys), TYPE (result types carry no position besides line), "
                        "WHO (token text is used only for identifier names, function names, the c/x/z letters and numeric literals), TAB+LEX for radix (C08 rule 8) and the line rules of C19. "
